@@ -118,7 +118,7 @@ class C10Scenario(ChangeScenario):
                 d = float(r['outcome'].split('delay=')[1].split(',')[0]) if 'delay=' in r['outcome'] else 0.0
                 base = e + d
             else:
-                base = e + BACKOFF
+                base = e + float(self.params.get('backoff', BACKOFF))
             if base is None:
                 if nxt is not None:
                     out.append(self.viol(env, 'one-shot-repeated', f"a timer without interval and idle ran again at {nxt['start']}", law='one-shot'))
@@ -166,7 +166,7 @@ def timer_configs() -> list[dict]:
 
 def build(tcfg: dict, script: list[str], edits: tuple[float, ...], **kw: Any) -> C10Scenario:
     handlers = [dict(id='ev', on='event', script=['ok']), dict(id='c1', on='create', script=['ok']), dict(id='u1', on='update', script=['ok']),
-                dict(id='tm', on='timer', script=script, backoff=BACKOFF, **tcfg)]
+                dict(id='tm', on='timer', script=script, backoff=kw.get('backoff', BACKOFF), **tcfg)]
     user: list[tuple] = [(1.0, 'create', 'a')]
     for i, te in enumerate(edits):
         user.append((te, 'spec', 'a', 10 + i))
@@ -200,6 +200,10 @@ def run(tier: str, seed: int) -> CheckResult:
     edit_sets: list[tuple[float, ...]] = [(), (2.5,), (5.0,), (2.5, 9.0)] if tier == 'quick' else [(), (2.5,), (5.0,), (6.0,), (2.5, 9.0), (5.0, 5.0), (13.0,)]
     plain = [build(t, s, e, delays=False, early_user=False, time_dev=False)
              for t in timer_configs() for s in scripts(tier) for e in edit_sets]
+    # "after a failed run it starts after ... the handler's backoff": a backoff of zero is a backoff
+    plain += [build(t, s, e, backoff=0.0, delays=False, early_user=False, time_dev=False)
+              for t in (dict(interval=4.0), dict(interval=4.0, sharp=True), dict(interval=4.0, idle=3.0))
+              for s in (['arb', 'ok', 'ok'], ['arb~1', 'arb', 'ok'], ['ok', 'arb', 'ok']) for e in ((), (2.5,))]
     plain += [build_toggle(t, off, off + d, delays=False, early_user=False, time_dev=False)
               for t in (dict(interval=1.5), dict(interval=1.5, sharp=True), dict(interval=4.0, idle=1.0), dict(idle=2.0))
               for off in (2.0, 3.0, 4.0, 6.0) for d in (0.5, 1.0, 2.5)]
